@@ -50,7 +50,12 @@ def enc(d):
 
 def dec(b):
     b = bytes(b)
-    return UNSPECIAL[b] if b in UNSPECIAL else int(b)
+    if b in UNSPECIAL:
+        return UNSPECIAL[b]
+    try:
+        return int(b)
+    except ValueError:
+        return 9999          # a payload this store was never given (the model has no such packet: the step is rejected)
 
 
 def project(store):
@@ -186,15 +191,28 @@ def random_traces(ctx, n, length, ids, rng, idmap=None):
         return [{'a0': inv[x['a0']], 'a1': inv[x['a1']], 'q': [{'c': c, 'd': d} for c, d in x['q']]} for x in project(s)]
 
     traces = []
+    # the environment of the store under test: wall-clock time passes (hours at a time), and other stores exist in the same process
+    # (every device object has one) and are created, filled and cleared in between - none of which the store may notice
+    from .. import simdev as simdev_
+    import time as real_time
+    clock = simdev_.VClock()
+    env.bind_time(clock)
     for _ in range(n):
         s = Store()
+        others = [Store()]
         tr = []
         dcount = {}
         for _ in range(length):
-            try:
-                pass
-            finally:
-                pass
+            x_ = rng.random()
+            if x_ < 0.08:
+                clock.advance(rng.choice([61.0, 3700.0, 200000.0]))
+            elif x_ < 0.14:
+                others.append(Store())
+            elif x_ < 0.22:
+                o_ = rng.choice(others)
+                o_.put(idmap(rng.choice(ids)), idmap(rng.choice(ids)), rng.choice(cmds).encode(), b'other')
+            elif x_ < 0.25:
+                rng.choice(others).clear_all()
             kind = rng.choice(['put'] * 4 + ['find', 'findz', 'get', 'get', 'clear', 'len', 'contains'] + (['clear_all'] if rng.random() < 0.1 else []))
             a0, a1 = rng.choice(ids), rng.choice(ids)
             p0 = rng.choice(ids + [NONE]) if rng.random() < 0.4 else a0
@@ -228,6 +246,7 @@ def random_traces(ctx, n, length, ids, rng, idmap=None):
             ev['st'] = proj(s)
             tr.append(ev)
         traces.append(tr)
+    env.bind_time(real_time)
     return traces
 
 
